@@ -128,8 +128,6 @@ class GaussianUnitary(Compiler):
     primitives = {
         # meta operations
         "All",
-        "_New_modes",
-        "_Delete",
         # single mode gates
         "Dgate",
         "Sgate",
